@@ -402,3 +402,55 @@ def run(repo: Repo, rep: Report) -> None:
     rep.rule("C18.g-identity-tests", "contexts/terms are compared with None by identity in AuditableStore", floor=3)
     for mname, m in methods.items():
         truthy.scan(repo, rep, "C18.g-identity-tests", mod, m, "%s.%s" % (CLS, mname))
+
+    # ------------------------------------------------------------------ (i) no other transaction state
+    rep.rule("C18.i-no-unsynchronised-state",
+             "any attribute of AuditableStore (other than the undo log) that add/remove/addN write to - a presence memo, a counter of pending "
+             "operations - is reset by rollback() on every normal path; otherwise it describes a state that rollback has undone", floor=1)
+    base_attrs = set()
+    for n in own_nodes(init):
+        if isinstance(n, (ast.Assign, ast.AnnAssign)):
+            t = n.targets[0] if isinstance(n, ast.Assign) else n.target
+            if isinstance(t, ast.Attribute) and isinstance(t.value, ast.Name) and t.value.id == "self":
+                base_attrs.add(t.attr)
+    written: dict[str, list] = {}
+    for mname in ("add", "remove", "addN"):
+        m = methods.get(mname)
+        if m is None:
+            continue
+        for n in own_nodes(m, include_nested=True):
+            a = None
+            if isinstance(n, (ast.Assign, ast.AugAssign)):
+                for t in (n.targets if isinstance(n, ast.Assign) else [n.target]):
+                    r = t
+                    while isinstance(r, ast.Subscript):
+                        r = r.value
+                    if isinstance(r, ast.Attribute) and isinstance(r.value, ast.Name) and r.value.id == "self":
+                        a = r.attr
+            if isinstance(n, ast.Call) and isinstance(n.func, ast.Attribute) and n.func.attr in ("add", "discard", "remove", "append", "update", "clear", "pop", "setdefault", "extend"):
+                r = n.func.value
+                while isinstance(r, ast.Subscript):
+                    r = r.value
+                if isinstance(r, ast.Attribute) and isinstance(r.value, ast.Name) and r.value.id == "self":
+                    a = r.attr
+            if a and a not in (log, wrapped):
+                written.setdefault(a, []).append((mname, n))
+    if not written:
+        rep.ob("C18.i-no-unsynchronised-state", mod, CLS, "add/remove write no attribute besides the undo log", True, "the log is the only transaction state", node=mod.cls(CLS))
+    for a, sites in written.items():
+        for mname in ("rollback",):  # after commit() such state still describes the store; after rollback() it does not
+            m = methods[mname]
+            g = CFG(m)
+            resets = set()
+            for nd in g.nodes:
+                st = nd.ast
+                if nd.kind != "stmt" or st is None:
+                    continue
+                if isinstance(st, (ast.Assign, ast.AnnAssign)) and any(norm(t) == "self." + a for t in (st.targets if isinstance(st, ast.Assign) else [st.target])):
+                    resets.add(nd.id)
+                if isinstance(st, ast.Expr) and isinstance(st.value, ast.Call) and norm(st.value.func) == "self.%s.clear" % a:
+                    resets.add(nd.id)
+            ok = bool(resets) and g.exit not in g.reach(g.entry, avoid=resets)
+            rep.ob("C18.i-no-unsynchronised-state", mod, "%s.%s" % (CLS, mname), "self.%s reset by %s" % (a, mname), ok,
+                   "" if ok else "self.%s is written by %s but %s() does not reset it: after the transaction ends it still describes the undone/committed state (e.g. a stale `already present` memo drops a later add)" % (a, sorted({x for x, _ in sites}), mname),
+                   node=sites[0][1])
